@@ -846,20 +846,43 @@ func runCase(c acase, in input) (res result) {
 	if ob.res == "panic" && om.res != "panic" {
 		viol(violation{Kind: "panic", Shape: class, Detail: "Build: " + ob.err + " at " + ob.stack})
 	}
-	if om.res == "error" {
-		// complete-or-error: the wallet reported that no selection exists; nothing may be presented
-		res.Checks++
-		if ob.res == "ok" && len(sign.VerifiableCredentials) > 0 {
-			viol(violation{Kind: "build-after-failed-match", Shape: class, Detail: "Build returned credentials although Match failed"})
+	// complete-or-error through the wallet's real entry point: whatever Build returns without error is what the holder
+	// presents, so its descriptor map must be a valid selection (reference) -- also when it is empty
+	res.Checks++
+	if ob.res == "ok" {
+		bm := map[string]bool{}
+		for _, m := range submission.DescriptorMap {
+			bm[m.Id] = true
 		}
-	}
-	if om.res != "ok" || ob.res != "ok" {
-		if om.res == "ok" {
-			viol(violation{Kind: "build-failed", Shape: class, Detail: ob.res + ": " + ob.err})
+		var built []string
+		for id := range bm {
+			built = append(built, id)
 		}
-		return
+		sort.Strings(built)
+		okSet := false
+		for _, vs := range c.Exp.Valid {
+			s := append([]string{}, vs...)
+			sort.Strings(s)
+			if reflect.DeepEqual(s, built) || (len(s) == 0 && len(built) == 0) {
+				okSet = true
+			}
+		}
+		if !okSet && !partial {
+			partial = true
+			viol(violation{Kind: "partial-selection", Shape: class,
+				Detail: fmt.Sprintf("Build (Match: %s) returned a submission for descriptors %v with %d credentials; valid sets %v, complete selection exists: %v",
+					om.res, built, len(sign.VerifiableCredentials), c.Exp.Valid, c.Exp.Complete)})
+		}
+		if om.res == "ok" && len(submission.DescriptorMap) != len(selMap) {
+			res.Drift = append(res.Drift, fmt.Sprintf("Build maps %d descriptors, Match %d", len(submission.DescriptorMap), len(selMap)))
+		}
+	} else if om.res == "ok" {
+		viol(violation{Kind: "build-failed", Shape: class, Detail: ob.res + ": " + ob.err})
 	}
-	obs["submission"] = submission
+	walletOK := om.res == "ok" && ob.res == "ok"
+	if walletOK {
+		obs["submission"] = submission
+	}
 
 	decoy, _ := buildCred(cred{Name: "decoyvp", Fmt: "ldp", Typ: "DecoyCredential", F: val{K: "s", S: "zzz"}, G: val{K: "none"}})
 
@@ -868,6 +891,9 @@ func runCase(c acase, in input) (res result) {
 			presented = sign.VerifiableCredentials
 		}
 		env, err := buildEnvelope(shape, presented, decoy)
+		if shape == "no-vp" {
+			env, err = []byte("[]"), nil // an envelope without any presentation
+		}
 		if err != nil {
 			return outcome{}, nil, err
 		}
@@ -892,6 +918,9 @@ func runCase(c acase, in input) (res result) {
 	}
 	rejectedSingle := false
 	for _, shape := range c.Shapes {
+		if !walletOK {
+			break
+		}
 		vpfmt, array, two := shapeParts(shape)
 		s := submission
 		s.DescriptorMap = append([]pe.InputDescriptorMappingObject{}, submission.DescriptorMap...)
@@ -988,12 +1017,19 @@ func runCase(c acase, in input) (res result) {
 
 	// 7. ForgedMappingRejected: mutated submissions (only meaningful when the code selected what the model predicts,
 	// because the abstract mutations are expressed relative to the predicted selection)
-	if len(c.Subs) > 0 && !conform {
-		res.Drift = append(res.Drift, "mutations skipped: real selection differs from the model's")
-		return
-	}
+	skipped := false
 	var subObs []map[string]any
 	for _, sb := range c.Subs {
+		// submissions over the wallet's own selection need that selection (and need it to be the predicted one);
+		// empty / decoy-only / missing presentations do not depend on the wallet at all
+		independent := sb.Mut == "incomplete" && sb.Ek != "partial-vp"
+		if !independent && (!walletOK || !conform) {
+			if !skipped && walletOK {
+				res.Drift = append(res.Drift, "mutations skipped: real selection differs from the model's")
+			}
+			skipped = true
+			continue
+		}
 		s := pe.PresentationSubmission{Id: "sub-verif", DefinitionId: pd.Id}
 		for _, e := range sb.Entries {
 			s.DescriptorMap = append(s.DescriptorMap, concreteEntry(e))
@@ -1003,6 +1039,9 @@ func runCase(c acase, in input) (res result) {
 			must = "reject" // self-test: the expectation of the correct submission is corrupted
 		}
 		var presented []vc.VerifiableCredential
+		if sb.Ek != "" && sb.Ek != "plain" {
+			presented = []vc.VerifiableCredential{} // exactly sb.Env, also when that is empty
+		}
 		for _, e := range sb.Env {
 			v, err := buildCred(e)
 			if err != nil {
